@@ -5,6 +5,11 @@ import TabulaModel.Model.ChunkSent
 import TabulaModel.Model.ChunkSplit
 import TabulaModel.Model.ChunkApi
 import TabulaModel.Model.ChunkAtomic
+import TabulaModel.Model.ChunkMeta
+import TabulaModel.Model.ChunkColl
+import TabulaModel.Model.ChunkIntro
+import TabulaModel.Model.ChunkDoc
+import TabulaModel.Model.ChunkLayoutX
 /-!
 Line protocol of C12 (see `harness/c12/gen.go: docWire`, `layout.go: layoutWire`).
 
@@ -25,6 +30,24 @@ Line protocol of C12 (see `harness/c12/gen.go: docWire`, `layout.go: layoutWire`
   reply `<start>-<end>,…|<block at 0>,<block at 1>,…` (`~` = no block), the result of `FindAtomicBlocks` and of
   `GetAtomicBlockAt` for every index
 * `c12.sents low=<hex,…> <hex text>` — `splitIntoSentences`; reply `<hex>+<hex>…` or `none`
+* `c12.chunkx <size cfg as for c12.chunkc> d=<doc>` — element-based chunker, the metadata beyond the statement's fields
+  (`Model/ChunkMeta.lean`); reply per chunk `<idx>,<hex SectionTitle>,<HeadingLevel>,<Level>,<hex ElementTypes[0]>,<HasTable><HasList><HasImage>,<CharCount>,<WordCount>,<EstimatedTokens>` joined by `;`
+* `c12.intro <hex text>` — `BoundaryDetector.isListIntro` with the default patterns (`Model/ChunkIntro.lean`); reply `0`/`1`
+* `c12.lchunki …` — arguments of `c12.lchunks`; the `!` flags of the wire are ignored, `isListIntro` is computed by the model (`chunkSI`)
+* `c12.query <size cfg> d=<doc> q=<step>,…` — a history of reads on the collection `ChunkDocumentWithConfig` returns
+  (`Model/ChunkColl.lean`); step = `<target>:<call>`, target 0 = the chunker's collection, k = the result of the k-th query;
+  call = `pg.<p>` `pr.<a>.<b>` `sec.<hex>` `et.<hex>` `wt` `wl` `wi` `mint.<n>` `maxt.<n>` `s.<hex>` `mod.<m>.<k>` `ge.<n>` `sl.<a>.<b>`
+  (queries) `gi.<i>` `gid.<hex>` `first` `last` `count` `prange` `secs` `tok` (reads); reply per step, joined by `|`:
+  `c<idx>+<idx>…` (`c~` empty) / `k<idx>` (`knil`) / `n<int>` / `p<a>:<b>` / `s<hex>+<hex>…` (`s~`)
+* `c12.mdoc <size cfg> <max> <min> <minHeadingLevel> <keepLists> <hex idPrefix> low=<hex,…> t=<hex title> m=<document|nil>` — one
+  `model.Document` (`Model/ChunkDoc.lean`) through both public entry points; document = `<page>/…`, page =
+  `<number>#<elem>|…#<~ | H…|…:P…|…:L…|…>` (elements as in `c12.chunk`, layout entries as in `c12.lchunks`, flags ignored);
+  reply `<chunks of ChunkDocumentWithConfig>#<chunks of Chunker.Chunk | err>`
+* `c12.lchunkx …` — arguments of `c12.lchunks`; the metadata of `Chunker.Chunk`'s chunks beyond the statement's fields
+  (`Model/ChunkLayoutX.lean`, sentences and introductions by the model); reply per chunk
+  `<idx>,<hex SectionTitle>,<HeadingLevel>,<Level>,<ElementTypes hex+hex…|~>,<HasList>,<CharCount>,<WordCount>,<EstimatedTokens>,<hex TextWithContext>` joined by `;`
+* `c12.lquery <max> <min> <minHeadingLevel> <keepLists> <hex idPrefix> <hex title> low=<hex,…> d=<layout doc> q=<step>,…` — the same on
+  `NewChunkCollection(chunker.Chunk(doc).Chunks)`
 
 Reply: `<idx>,<hex id>,<total>,<pageStart>,<pageEnd>,<hex+hex…|~>,<hex text>` joined by `;`, or `none`.
 -/
@@ -188,8 +211,158 @@ def uspTrace : List Str → Int → List (Int × Str) → List String
     let r := ChunkApi.updateSectionPath path cur l t
     s!"{dumpPath r.1}@{r.2}" :: uspTrace r.1 r.2 hs
 
+/-! metadata, collection queries -/
+
+def dumpX (x : ChunkMeta.XChunk) : String :=
+  let b (v : Bool) : String := if v then "1" else "0"
+  s!"{x.c.idx},{hexS x.title},{x.headingLevel},{x.level},{hexS x.elementType},{b x.hasTable}{b x.hasList}{b x.hasImage},{x.charCount},{x.wordCount},{x.estimatedTokens}"
+
+def unhexF (s : String) : Option Str := unhexS s
+
+open ChunkColl in
+def parseCall (s : String) : Option Op :=
+  match s.splitOn "." with
+  | ["pg", p] => p.toInt?.map fun p => .query (.byPage p)
+  | ["pr", a, b] => do
+    let a ← a.toInt?
+    let b ← b.toInt?
+    pure (.query (.byPageRange a b))
+  | ["sec", t] => (unhexF t).map fun t => .query (.bySection t)
+  | ["et", t] => (unhexF t).map fun t => .query (.byElementType t)
+  | ["wt"] => some (.query .withTables)
+  | ["wl"] => some (.query .withLists)
+  | ["wi"] => some (.query .withImages)
+  | ["mint", n] => n.toInt?.map fun n => .query (.minTokens n)
+  | ["maxt", n] => n.toInt?.map fun n => .query (.maxTokens n)
+  | ["s", t] => (unhexF t).map fun t => .query (.search t)
+  | ["mod", m, k] => do
+    let m ← m.toNat?
+    let k ← k.toNat?
+    pure (.query (.pred fun q => q.c.idx % m == k))
+  | ["ge", n] => n.toNat?.map fun n => .query (.pred fun q => decide (n ≤ q.c.idx))
+  | ["sl", a, b] => do
+    let a ← a.toNat?
+    let b ← b.toNat?
+    pure (.query (.slice a b))
+  | ["gi", i] => i.toInt?.map fun i => .read (.getByIndex i)
+  | ["gid", t] => (unhexF t).map fun t => .read (.getByID t)
+  | ["first"] => some (.read .first)
+  | ["last"] => some (.read .last)
+  | ["count"] => some (.read .count)
+  | ["prange"] => some (.read .pageRange)
+  | ["secs"] => some (.read .sections)
+  | ["tok"] => some (.read .totalTokens)
+  | _ => none
+
+open ChunkColl in
+def parseStep (s : String) : Option Step :=
+  match s.splitOn ":" with
+  | [t, call] => do
+    let t ← t.toNat?
+    let op ← parseCall call
+    pure ⟨t, op⟩
+  | _ => none
+
+open ChunkColl in
+def dumpResult : Result → String
+  | .coll cs => if cs.isEmpty then "c~" else "c" ++ "+".intercalate (cs.map fun q => toString q.c.idx)
+  | .chunk none => "knil"
+  | .chunk (some q) => s!"k{q.c.idx}"
+  | .num n => s!"n{n}"
+  | .pair a b => s!"p{a}:{b}"
+  | .strs l => if l.isEmpty then "s~" else "s" ++ "+".intercalate (l.map hexS)
+
+open ChunkColl in
+def runQueryOp (base : List QChunk) (q : String) : String :=
+  if !(q.startsWith "q=") then "bad-op" else
+  match (splitNE (q.drop 2).toString ",").mapM parseStep with
+  | some steps =>
+    let rs := (runHistory base steps).2
+    if rs.isEmpty then "none" else "|".intercalate (rs.map dumpResult)
+  | none => "bad-op"
+
+open ChunkDoc in
+def parseMPage (s : String) : Option MPage :=
+  match s.splitOn "#" with
+  | [n, es, lay] => do
+    let n ← n.toInt?
+    let es ← (splitNE es "|").mapM parseElem
+    if lay == "~" then pure ⟨n, es, none⟩ else
+    match lay.splitOn ":" with
+    | [hs, ps, ls] => do
+      let hs ← (splitNE hs "|").mapM parseLH
+      let ps ← (splitNE ps "|").mapM parseLP
+      let ls ← (splitNE ls "|").mapM parseLL
+      pure ⟨n, es, some ⟨hs.map fun h => (h.level, h.text), ps.map (·.text), ls.map (·.items)⟩⟩
+    | _ => none
+  | _ => none
+
+def dumpLX (y : ChunkLayoutX.LXS) : String :=
+  let tys := if y.x.m.types.isEmpty then "~" else "+".intercalate (y.x.m.types.map hexS)
+  s!"{y.x.c.idx},{hexS y.title},{y.headingLevel},{y.x.m.level},{tys},{if y.x.m.hasList then 1 else 0},{y.charCount},{y.wordCount},{y.estimatedTokens},{hexS y.textWithContext}"
+
 def handle (op : String) (args : List String) : String :=
   match op, args with
+  | "c12.lchunkx", [mx, mn, mhl, keep, pfx, title, low, d] =>
+    if !(d.startsWith "d=" && low.startsWith "low=") then "bad-op" else
+    match mx.toInt?, mn.toInt?, mhl.toInt?, unhexS pfx, unhexS title,
+          (splitNE (low.drop 4).toString ",").mapM unhexS,
+          (splitNE (d.drop 2).toString "/").mapM parseLPage with
+    | some mx, some mn, some mhl, some pfx, some title, some tbl, some doc =>
+      let ys := ChunkLayoutX.chunkXSI (ChunkSent.lowOfTable tbl) ⟨mx, mn, mhl, keep == "1", pfx⟩ title doc
+      if ys.isEmpty then "none" else ";".intercalate (ys.map dumpLX)
+    | _, _, _, _, _, _, _ => "bad-op"
+  | "c12.mdoc", [cfg, mx, mn, mhl, keep, pfx, low, t, m] =>
+    if !(m.startsWith "m=" && low.startsWith "low=" && t.startsWith "t=") then "bad-op" else
+    match parseSizeCfg cfg, mx.toInt?, mn.toInt?, mhl.toInt?, unhexS pfx, unhexS (t.drop 2).toString,
+          (splitNE (low.drop 4).toString ",").mapM unhexS with
+    | some c, some mx, some mn, some mhl, some pfx, some title, some tbl =>
+      let body := (m.drop 2).toString
+      let doc : Option (Option ChunkDoc.MDoc) :=
+        if body == "nil" then some none
+        else ((splitNE body "/").mapM parseMPage).map fun pgs => some ⟨title, pgs⟩
+      match doc with
+      | some md =>
+        let a := dumpChunks (ChunkDoc.chunkDocumentAPI c md)
+        let b := match ChunkDoc.chunkerChunkAPI (ChunkSent.lowOfTable tbl) ⟨mx, mn, mhl, keep == "1", pfx⟩ md with
+          | .ok cs => dumpChunks cs
+          | .error _ => "err"
+        a ++ "#" ++ b
+      | none => "bad-op"
+    | _, _, _, _, _, _, _ => "bad-op"
+  | "c12.chunkx", [cfg, d] =>
+    if !(d.startsWith "d=") then "bad-op" else
+    match parseSizeCfg cfg, (splitNE (d.drop 2).toString "/").mapM parsePage with
+    | some c, some doc =>
+      let xs := ChunkMeta.chunkDocumentXC c doc
+      if xs.isEmpty then "none" else ";".intercalate (xs.map dumpX)
+    | _, _ => "bad-op"
+  | "c12.intro", [t] =>
+    match unhexS t with
+    | some t => if ChunkIntro.isListIntro t then "1" else "0"
+    | none => "bad-op"
+  | "c12.query", [cfg, d, q] =>
+    if !(d.startsWith "d=") then "bad-op" else
+    match parseSizeCfg cfg, (splitNE (d.drop 2).toString "/").mapM parsePage with
+    | some c, some doc => runQueryOp (ChunkColl.elementColl c doc) q
+    | _, _ => "bad-op"
+  | "c12.lquery", [mx, mn, mhl, keep, pfx, title, low, d, q] =>
+    if !(d.startsWith "d=" && low.startsWith "low=") then "bad-op" else
+    match mx.toInt?, mn.toInt?, mhl.toInt?, unhexS pfx, unhexS title,
+          (splitNE (low.drop 4).toString ",").mapM unhexS,
+          (splitNE (d.drop 2).toString "/").mapM parseLPage with
+    | some mx, some mn, some mhl, some pfx, some title, some tbl, some doc =>
+      runQueryOp (ChunkColl.layoutColl (ChunkSent.lowOfTable tbl) ⟨mx, mn, mhl, keep == "1", pfx⟩ title
+        (ChunkIntro.withIntro doc)) q
+    | _, _, _, _, _, _, _ => "bad-op"
+  | "c12.lchunki", [mx, mn, mhl, keep, pfx, title, low, d] =>
+    if !(d.startsWith "d=" && low.startsWith "low=") then "bad-op" else
+    match mx.toInt?, mn.toInt?, mhl.toInt?, unhexS pfx, unhexS title,
+          (splitNE (low.drop 4).toString ",").mapM unhexS,
+          (splitNE (d.drop 2).toString "/").mapM parseLPage with
+    | some mx, some mn, some mhl, some pfx, some title, some tbl, some doc =>
+      dumpChunks (ChunkIntro.chunkSI (ChunkSent.lowOfTable tbl) ⟨mx, mn, mhl, keep == "1", pfx⟩ title doc)
+    | _, _, _, _, _, _, _ => "bad-op"
   | "c12.usp", [c0, hs] =>
     match c0.toInt?, (splitNE (if hs == "-" then "" else hs) ",").mapM parseLevelHex with
     | some c0, some hs => if hs.isEmpty then "none" else ";".intercalate (uspTrace [] c0 hs)
